@@ -117,6 +117,33 @@ Theorem load_once_per_identity : forall nS nE tr,
 Proof. exact accepted_loads_once. Qed.
 Print Assumptions load_once_per_identity.
 
+(* the per-file resolver cache of parseFile: in an accepted trace each import
+   (kind, specifier, attributes) of one file reaches the on-resolve callbacks
+   at most once - and (by the checker's PResK rule) only after that file was
+   loaded *)
+Theorem resolve_once_per_import : forall nS nE tr,
+  build_trace_prefix_ok nS nE tr = true -> NoDup (resolves tr).
+Proof. exact accepted_resolves_once. Qed.
+Print Assumptions resolve_once_per_import.
+
+(* on-end callbacks come after ALL loads and resolves: once the first on-end
+   callback has begun, an accepted trace contains no further on-start,
+   on-resolve or on-load callback *)
+Theorem onend_after_all_loads : forall nS nE pre i w post,
+  build_trace_prefix_ok nS nE (pre ++ PEB i w :: post) = true ->
+  forallb (fun e => negb (scan_event e)) post = true.
+Proof. exact accepted_onend_after_scan. Qed.
+Print Assumptions onend_after_all_loads.
+
+(* in the model, for every schedule: when the outputs are written (hence
+   before any on-end callback) every file that was ever visited has run its
+   on-load callback *)
+Theorem all_visited_loaded_before_write : forall nS nE acts s' tr,
+  brun nS nE bst0 acts = Some (s', tr) -> b_written s' = true ->
+  forall x, In x (b_visited s') -> In x (b_loaded s').
+Proof. exact all_visited_loaded_at_write. Qed.
+Print Assumptions all_visited_loaded_before_write.
+
 (* ---- the service layer (cmd/esbuild/service.go) as an LTS over packets ---- *)
 
 (* every run of the service model - any interleaving of arriving requests,
